@@ -12,7 +12,7 @@ ASSUMPTIONS = A01 + ["well-formed input: every binary file is the concatenation 
 TRUSTED = T01 + ["pool.imap order and exception propagation (assumed)"]
 
 
-def tasks(tier):
+def _tasks0(tier):
     from props.taste_coords import coord_tasks
     from props.taste_parents import parent_tasks
     return worker_tasks("C03", ["complete"]) + dispatch_tasks("C03") + coord_tasks("C03") + parent_tasks("C03")
@@ -39,9 +39,19 @@ def scenarios(tier, seed):
              "nlevels": [2, 3, 1][i % 3], "nfiles": [3, 2, 1, 4][i % 4], "layout": ["shuffled", "roundrobin"][i % 2],
              "box_sizes": [8, 16] if i % 3 == 2 else None, "all_limits": tier != "quick"} for i in range(n)] + \
         [{"kind": "accept", "seed": seed * 1000 + 350, "ndims": 3, "nf": 2, "nlevels": 2, "nfiles": 2, "layout": "shuffled",
-          "box_sizes": [8, 16], "n0": [32, 16, 16], "all_limits": False}]      # boxes of different shapes sharing a binary file
+          "box_sizes": [8, 16], "n0": [32, 16, 16], "all_limits": False},      # boxes of different shapes sharing a binary file
+         {"kind": "accept", "seed": seed * 1000 + 351, "ndims": 3, "nf": 2, "nlevels": 2, "nfiles": 2, "layout": "shuffled",
+          "n0": [16, 16, 16], "geo_lo": [-0.008, -0.008, -0.008], "dx0": [0.001, 0.001, 0.001], "all_limits": False}]
+        # (domain centred on the origin: box faces exactly at 0.0, cell sizes that are not binary fractions)
 
 
 def run_scenario(p, wd):
     from harness.rt_taste import run_accept_scenario
     return run_accept_scenario(p, wd)
+
+
+
+def tasks(tier):
+    # the FAB header parsers / formatter (real bodies on canonical header text): the obligations behind the header contracts
+    from props.parsers import parser_tasks
+    return _tasks0(tier) + parser_tasks("C03", nds=(2, 3))
